@@ -19,6 +19,7 @@ structure Opnd where
   deriving Repr, DecidableEq, Inhabited
 
 structure Row where
+  /-- opcode name (big-endian base-256 of the ASCII text) -/
   opc : Nat
   cls : Nat
   feat : Nat
@@ -26,7 +27,7 @@ structure Row where
   deriving Repr, DecidableEq, Inhabited
 
 structure Meta where
-  /-- opcode names, indexed by `Row.opc` -/
+  /-- opcode names in order of first appearance in the table -/
   opcodes : Array Nat
   /-- operand type names (lower case, prefix stripped), indexed by `oprndtype` value -/
   typeNames : Array Nat
@@ -38,17 +39,19 @@ structure Meta where
 
 /-! ### Names -/
 
-def byteLen (n : Nat) : Nat := if n = 0 then 0 else Nat.log2 n / 8 + 1
+/-- `p` is a prefix of `n` (as byte strings without leading zero bytes): dropping some
+number of low bytes of `n` leaves exactly `p`. Names are shorter than 40 bytes. -/
+def hasPrefixAux : Nat → Nat → Nat → Bool
+  | 0, _, _ => false
+  | fuel+1, p, n => n == p || (n != 0 && hasPrefixAux fuel p (n >>> 8))
 
-/-- `p` is a prefix of `n` (as byte strings). -/
-def hasPrefix (p n : Nat) : Bool :=
-  byteLen p ≤ byteLen n && n >>> (8 * (byteLen n - byteLen p)) == p
+def hasPrefix (p n : Nat) : Bool := hasPrefixAux 40 p n
 
-def toStr (n : Nat) : String :=
-  let rec go : Nat → Nat → List Char → List Char
-    | 0, _, acc => acc
-    | fuel+1, n, acc => if n = 0 then acc else go fuel (n / 256) (Char.ofNat (n % 256) :: acc)
-  String.ofList (go (byteLen n) n [])
+def toChars : Nat → Nat → List Char → List Char
+  | 0, _, acc => acc
+  | fuel+1, n, acc => if n = 0 then acc else toChars fuel (n / 256) (Char.ofNat (n % 256) :: acc)
+
+def toStr (n : Nat) : String := String.ofList (toChars 64 n [])
 
 /-! Operand type names used by the facts (hex of the ASCII text). -/
 def nR8 : Nat := 0x7238
@@ -104,7 +107,7 @@ def implicitOK (m : Meta) (regs : RegTbl) (r : Row) : Bool :=
 
 /-- actions are one of N, R, W, RW and explicit operand types are known -/
 def shapeOK (m : Meta) (r : Row) : Bool :=
-  r.opc < m.opcodes.size && r.cls < m.sfxClasses.size &&
+  r.opc != 0 && r.cls < m.sfxClasses.size &&
   r.ops.all (fun o => o.act < 4 && (o.impl || tyName m o != 0))
 
 def clsSomeZ (m : Meta) (r : Row) : Bool := (m.sfxClasses.getD r.cls (0, false, false)).2.1
@@ -131,7 +134,7 @@ def mergeDestOK (m : Meta) (r : Row) : Bool :=
 /-- a suffix class either always or never carries `Z` -/
 def clsZConsistent (m : Meta) : Bool := m.sfxClasses.all (fun c => c.2.1 == c.2.2)
 
-def opcName (m : Meta) (r : Row) : Nat := m.opcodes.getD r.opc 0
+def opcName (_m : Meta) (r : Row) : Nat := r.opc
 
 /-- **Conditional moves** leave the destination unchanged when the condition
 fails: the destination (last operand, a register) is read and written. -/
